@@ -126,7 +126,8 @@ def _split_into_branches(
 
         if current_parent == -1 and is_single_point_soma and current_ind == 1:
             all_branches.append([int(current_ind)])
-            all_types.append(int(current_type))
+            # The branch after a single-point soma starts at the next row of the file.
+            all_types.append(int(content[min(1, len(content) - 1)][1]))
 
         # Either append the current point to the branch, or add the branch to
         # `all_branches`.
